@@ -239,8 +239,11 @@ class _IdentityDup:
         self.root = root
 
 
-def execute(program, share_tables=True, only=None, env=None, dup_identity=False, on_op=None) -> Env:
-    """Run ops in log order.  `only`: set of indices to run (others become Skipped)."""
+def execute(program, share_tables=True, only=None, env=None, dup_identity=False, on_op=None, dup_fresh=False) -> Env:
+    """Run ops in log order.  `only`: set of indices to run (others become Skipped).
+    dup_fresh (reference model of programs with recorded alias effects): a duplicate is not the original object but a
+    second, independent linear rebuild of the original as it was at the dup's log position - value semantics without
+    trusting any copy mechanism, and immune to alias effects that reach the original later."""
     env = env or Env(share_tables=share_tables)
     start = len(env.heap)
     for i in range(start, len(program)):
@@ -249,7 +252,11 @@ def execute(program, share_tables=True, only=None, env=None, dup_identity=False,
             apply_alias_fx(env, program[i])
             continue
         v = exec_op(env, program[i], dup_identity=dup_identity)
-        if isinstance(v, _IdentityDup):
+        if isinstance(v, _IdentityDup) and dup_fresh:
+            sub = execute(program[:i], share_tables=share_tables, only=set(cone(program, v.root)), dup_identity=True,
+                          dup_fresh=True)
+            v = _deref(sub, v.root)
+        elif isinstance(v, _IdentityDup):
             v = _deref(env, v.root)
         env.heap.append(v)
         if on_op is not None:
@@ -283,19 +290,21 @@ def slot_obs(env: Env, i: int, **kw) -> dict:
     return observe(v, **kw)
 
 
-def rebuild(program, target: int, share_tables=True, extra=None) -> Env:
+def rebuild(program, target: int, share_tables=True, extra=None, dup_fresh=None) -> Env:
     """Linear rebuild: evaluate the cone of `target` from scratch in an empty heap.
     Read events (render) are not part of any object's cone.  dup is the identity."""
     need = set(cone(program, target))
     if extra:
         for e in extra:
             need |= set(cone(program, e))
-    upto = len(program) if any("alias_fx" in op for op in program) else max(need) + 1
-    return execute(program[:upto], share_tables=share_tables, only=need, dup_identity=True)
+    fx = any("alias_fx" in op for op in program)
+    upto = len(program) if fx else max(need) + 1
+    return execute(program[:upto], share_tables=share_tables, only=need, dup_identity=True,
+                   dup_fresh=fx if dup_fresh is None else dup_fresh)
 
 
-def reference_obs(program, target: int, share_tables=True, extra=None, **kw) -> dict:
-    env = rebuild(program, target, share_tables, extra=extra)
+def reference_obs(program, target: int, share_tables=True, extra=None, dup_fresh=None, **kw) -> dict:
+    env = rebuild(program, target, share_tables, extra=extra, dup_fresh=dup_fresh)
     return slot_obs(env, target, **kw)
 
 
